@@ -175,6 +175,8 @@ Record Inv (c : cfg) (s : st) : Prop := {
               /\ use_cache_in c (pre c) t = false);
   I_store3 : forall t, In t (finished s) -> ~ In t (failed s) -> use_cache_in c (pre c) t = false ->
              cacheable_of c (ty_of c t) = true -> lookup (store s) t = ref c t;
+  I_store4 : forall t, ~ (In t (finished s) /\ ~ In t (failed s) /\ use_cache_in c (pre c) t = false /\
+                          cacheable_of c (ty_of c t) = true) -> lookup (store s) t = lookup (pre c) t;
   I_hsub : forall t, In t (submitted (hist s)) <-> In t (active s) \/ In t (finished s);
   I_hnd : NoDup (submitted (hist s));
   I_hfin : forall t, In t (finishes (hist s)) <-> In t (finished s);
@@ -205,6 +207,7 @@ Proof.
   - reflexivity.
   - intros t v H. left. exact H.
   - intros t [].
+  - reflexivity.
   - intros t. cbn [In]. tauto.
   - constructor.
   - intros t. cbn [In]. tauto.
@@ -241,6 +244,7 @@ Proof.
   - intros u Hu. apply (I_store c s I). destruct Hu as [Hu|Hu].
     + apply In_remove1 in Hu. left. tauto.
     + apply in_app_or in Hu. destruct Hu as [Hu|[<-|[]]]; [now right|now left].
+  - apply I.
   - apply I.
   - apply I.
   - intros u. rewrite submitted_cons_submit. cbn [In]. rewrite (I_hsub c s I u), in_app_iff. cbn [In]. tauto.
@@ -407,6 +411,15 @@ Proof.
     + assert (Hne : u <> t) by congruence.
       destruct (negb (use_cache_in c (store s) t) && cacheable_of c (ty_of c t));
         [cbn [lookup]; destruct (Nat.eqb_spec u t); [congruence|]|]; now apply (I_store3 c s I).
+  - intros u Hnc. destruct (Nat.eq_dec u t) as [->|Hne].
+    + destruct (negb (use_cache_in c (store s) t) && cacheable_of c (ty_of c t)) eqn:Es.
+      * exfalso. apply Hnc. apply andb_true_iff in Es. destruct Es as [E1 E2]. apply negb_true_iff in E1.
+        rewrite Hu in E1. repeat split; auto. now left.
+      * apply (I_store4 c s I). tauto.
+    + assert (Hold : lookup (store s) u = lookup (pre c) u).
+      { apply (I_store4 c s I). intros (A & B & C & D). apply Hnc. repeat split; auto. now right. }
+      destruct (negb (use_cache_in c (store s) t) && cacheable_of c (ty_of c t)); [|exact Hold].
+      cbn [lookup]. destruct (Nat.eqb_spec u t); [congruence|exact Hold].
   - intros u. cbn [submitted flat_map app]. fold (submitted ((if mem t (req c) then [ECapture t] else []) ++ EFinish t (Some v) :: hist s)).
     rewrite submitted_app. assert (Hc : submitted (if mem t (req c) then [ECapture t] else []) = []) by (destruct (mem t (req c)); reflexivity).
     rewrite Hc. cbn [app submitted flat_map]. fold (submitted (hist s)).
@@ -482,6 +495,9 @@ Proof.
   - intros u [<-|Hu'] Hnfu Huc Hca.
     + exfalso. apply Hnfu. now left.
     + apply (I_store3 c s I); auto. intro F. apply Hnfu. now right.
+  - intros u Hnc. apply (I_store4 c s I). intros (A & B & C & D).
+    destruct (Nat.eq_dec u t) as [->|Hne]; [contradiction|].
+    apply Hnc. repeat split; auto; [now right|]. intros [F|F]; [congruence|contradiction].
   - intros u. cbn [submitted flat_map app]. fold (submitted (hist s)).
     rewrite (I_hsub c s I u), In_remove1. unfold fin'. cbn [In]. apply or_move. intros ->. exact Ema.
   - cbn [submitted flat_map app]. apply I.
